@@ -305,7 +305,7 @@ class FillMonitor(Monitor):
             m = o.simulated.size_matched
             pr["c05.fok.%s" % ("filled" if m > 0 else "killed")] += 1
             if not full_match and not (m >= mf - EPS or m == 0):
-                self.violate(self.P, "C05.fok", "partial-below-min-fill", matched=m, min_fill=mf, **ctx)
+                self.violate(self.P, "C05.fok", "partial-below-min-fill", matched=m, required_min_fill=mf, **ctx)
             if abs(o.size_remaining) > EPS:
                 self.violate(self.P, "C05.fok", "fok-rests-in-market", remaining=o.size_remaining, **ctx)
             self.fok_done[o._vid] = len(o.simulated.matched)
